@@ -227,14 +227,16 @@ def r17_5(ctx):
 def r17_6(ctx, layers):
     F = ctx.facts
 
+    def regions_of(f, s):
+        yield s.paths()
+        for lp in for_loops(f):
+            yield lp.iteration_paths(s)
+
     def gate(r, f, tag):
         n = 0
         s = Sym(f, copies=True, max_paths=60000)
         bad = set()
-        regions = [s.paths()]
-        for lp in for_loops(f):
-            regions.append(lp.iteration_paths(s))
-        for paths in regions:
+        for paths in regions_of(f, s):
             for p in paths:
                 condmap = {a: v for a, v in p.conds}
                 for e in p.events:
@@ -251,6 +253,40 @@ def r17_6(ctx, layers):
                             bad.add(e[5])
         r.ob("gating:%s" % tag, not bad and n > 0, f.site,
              "every Trace::new(matched=false, ..) carries no children (%d constructions on all paths)" % n if not bad else "unmatched trace node with children at lines %s" % sorted(bad))
+        # the converse for what was traced: the trace a child matcher returned is attached as it is (as
+        # the children of a node, or appended to / returned as this layer's list), never dropped or edited
+        lost = set()
+        k = 0
+        defs = f.defs()
+        all_events = [x for paths in regions_of(f, s) for p in paths for x in list(p.events) + ([("ret", p.end[1])] if p.end[0] == "ret" else [])]
+
+        def carried(v):
+            """is value / local `v` what some node carries, what is appended to the list, or what is returned?"""
+            for x in all_events:
+                if x[0] == "call" and x[1] == "router::trace::Trace::new" and x[2][3] == v:
+                    return True
+                if x[0] == "call" and x[1].rsplit("::", 1)[1] in ("extend", "push", "append") and any(a_ == v for a_ in x[2][1:]):
+                    return True
+                if x[0] == "ret" and x[1] == v:
+                    return True
+            return False
+        for paths in regions_of(f, s):
+            for p in paths:
+                for i, e in enumerate(p.events):
+                    if e[0] != "call" or e[6] is None or not e[6].local or e[6].name != "trace" or "request_matcher" not in e[1]:
+                        continue
+                    k += 1
+                    res = e[3]
+                    used = carried(res)
+                    for x in p.events[i + 1:]:
+                        if x[0] in ("init", "set") and x[3] == res:
+                            # held in a variable: that variable is assigned nothing else, and is what is carried
+                            used = used or (len(defs.get(x[1], ())) == 1 and carried(("local", x[1])))
+                    if not used:
+                        lost.add(e[5])
+        if k:  # (the last layer has no child matcher)
+            r.ob("attached:%s" % tag, not lost, f.site,
+                 "every child trace computed is attached unmodified (%d child trace calls on all paths)" % k if not lost else "child trace computed at line(s) %s is not what the node carries" % sorted(lost))
 
     def body(r):
         for L in layers:
@@ -318,7 +354,7 @@ def r17_6(ctx, layers):
                             # `matched` may be held in a variable: accept a cond on the call value
                             ok = ok and any(mentions(a, lambda x: x[0] == "call" and x[1] == "regex::LazyRegex::is_match") and v == 1 for a, v in p.conds)
             r.ob("gating:Node::%s" % ("trace" if f is nt else "find"), ok and n == 1, f.site, "children are visited only when the node's own regex matched (LazyRegex::is_match)")
-    ctx.run_rule("R17.6", "unmatched branches of the trace carry no routes", body, floor=10)
+    ctx.run_rule("R17.6", "unmatched branches of the trace carry no routes, matched ones carry the child trace", body, floor=16)
 
 
 def equal_flag_invariants(f, outer, inner, s):
